@@ -165,8 +165,10 @@ func (c *Ctx) INT1(rule string) []report.Obligation {
 	// the default arm returns its input
 	def := false
 	for _, r := range returnsOf(f) {
-		if retValue(r, 0) == ssa.Value(f.Params[0]) && isNilOrConst(retValue(r, 1)) {
-			def = true
+		for _, pa := range f.Params {
+			if types.IsInterface(pa.Type()) && retValue(r, 0) == ssa.Value(pa) && isNilOrConst(retValue(r, 1)) {
+				def = true
+			}
 		}
 	}
 	out = append(out, verdict(def, rule, "recursiveInterpolate :: other scalars returned unchanged", c.P.Pos(f.Pos()),
@@ -808,6 +810,7 @@ var RefLoops = []RefLoop{
 	{"dotenv.loadFile", "dotenv", "every env file named by the caller"},
 	{"dotenv.ReadFile", "dotenv", "every env file named by the caller"},
 	{"loader.loadYamlFile", "loader", "every configuration file of the project"},
+	{"loader.loadYamlModel", "loader", "every entry of an include section"},
 }
 
 // naturalLoop returns the smallest natural loop (header, body) that contains block b.
@@ -1441,6 +1444,455 @@ func (c *Ctx) URLCTX(rule string) []report.Obligation {
 	}
 	if n == 0 {
 		out = append(out, bad(rule, "paths :: build context resolver", "", "no resolver for build contexts found in package paths: the rule sees nothing"))
+	}
+	return out
+}
+
+// ---------------------------------------------------------------------------
+// CLONE: a hand-written copy of a struct copies every field from the field of
+// the same name. For every method `func (x *T) clone() *T` of the module that
+// fills a fresh T from its receiver: each store into field i of the new value
+// whose source is a field of the receiver reads field i, and every field of T
+// is stored (a field that is not copied silently falls back to its zero value
+// in the copy: a switch the caller set is lost for the nested load).
+// ---------------------------------------------------------------------------
+
+func (c *Ctx) CLONE(rule string) []report.Obligation {
+	var out []report.Obligation
+	n := 0
+	for _, fn := range c.P.Funcs {
+		sig := fn.Signature
+		if sig.Recv() == nil || sig.Params().Len() != 0 || sig.Results().Len() != 1 || len(fn.Params) != 1 {
+			continue
+		}
+		rp, ok := sig.Recv().Type().(*types.Pointer)
+		if !ok || !types.Identical(sig.Results().At(0).Type(), sig.Recv().Type()) {
+			continue
+		}
+		st, ok := rp.Elem().Underlying().(*types.Struct)
+		if !ok || !strings.Contains(strings.ToLower(fn.Name()), "clone") && !strings.Contains(strings.ToLower(fn.Name()), "copy") {
+			continue
+		}
+		// the fresh value
+		var fresh *ssa.Alloc
+		for _, b := range fn.Blocks {
+			for _, in := range b.Instrs {
+				if al, ok := in.(*ssa.Alloc); ok && al.Heap && types.Identical(al.Type(), sig.Recv().Type()) {
+					fresh = al
+				}
+			}
+		}
+		if fresh == nil {
+			continue
+		}
+		n++
+		id := c.P.FuncID(fn)
+		stored := map[int]bool{}
+		for _, r := range *fresh.Referrers() {
+			fa, ok := r.(*ssa.FieldAddr)
+			if !ok {
+				continue
+			}
+			for _, rr := range *fa.Referrers() {
+				sto, ok := rr.(*ssa.Store)
+				if !ok || sto.Addr != ssa.Value(fa) {
+					continue
+				}
+				stored[fa.Field] = true
+				if ld, ok := sto.Val.(*ssa.UnOp); ok && ld.Op == token.MUL {
+					if src, ok := ld.X.(*ssa.FieldAddr); ok && src.X == ssa.Value(fn.Params[0]) {
+						out = append(out, verdict(src.Field == fa.Field, rule, id+" :: "+st.Field(fa.Field).Name()+" copied from the same field", c.P.InstrPos(sto),
+							"copied from the receiver's field of the same name", "field "+st.Field(fa.Field).Name()+" of the copy is filled from the receiver's "+st.Field(src.Field).Name()))
+					}
+				}
+			}
+		}
+		if len(stored) == 0 {
+			n--
+			continue // the copy is delegated (generated deep copy): covered by IMM / DC
+		}
+		for i := 0; i < st.NumFields(); i++ {
+			out = append(out, verdict(stored[i], rule, id+" :: "+st.Field(i).Name()+" copied", c.P.Pos(fn.Pos()), "the field is set in the copy",
+				"field "+st.Field(i).Name()+" is not copied: the copy silently gets the zero value, whatever the caller set"))
+		}
+	}
+	if n == 0 {
+		out = append(out, bad(rule, "clone methods", "", "no hand-written clone method found: the rule sees nothing"))
+	}
+	return out
+}
+
+// ---------------------------------------------------------------------------
+// ESC (C18): escape sequences of a double-quoted value are decoded in one
+// left-to-right scan. Wherever package dotenv decodes escapes with
+// (*regexp.Regexp).ReplaceAllStringFunc, the text scanned is the function's
+// parameter itself: a rewriting pass applied first (strings.ReplaceAll of `\$`,
+// ...) cannot know whether a backslash is itself escaped, so `\\$VAR` is read
+// as `\` + `\$VAR`.
+// ---------------------------------------------------------------------------
+
+func (c *Ctx) ESC(rule string) []report.Obligation {
+	var out []report.Obligation
+	n := 0
+	for _, fn := range c.P.Funcs {
+		if !strings.HasPrefix(c.P.FuncID(fn), "dotenv.") {
+			continue
+		}
+		for _, cs := range callSites(fn, func(com *ssa.CallCommon) bool { return staticName(com) == "(*regexp.Regexp).ReplaceAllStringFunc" }) {
+			n++
+			src := cs.Common().Args[1]
+			_, isParam := src.(*ssa.Parameter)
+			out = append(out, verdict(isParam, rule, c.P.FuncID(fn)+" :: escapes decoded in a single scan of the value", c.P.InstrPos(cs),
+				"the text scanned for escape sequences is the parameter itself", "the text scanned for escape sequences was rewritten first ("+c.P.KeyTerm(src, 2)+"): a backslash that is itself escaped is no longer told apart"))
+		}
+	}
+	out = append(out, report.Obligation{Rule: rule, Key: "inventory", Status: report.Discharged, Why: fmt.Sprintf("%d escape-decoding scans in package dotenv", n)})
+	return out
+}
+
+// ---------------------------------------------------------------------------
+// EXTVAL (C11): a resource keeps its bare key as name only when it is
+// external, i.e. when `external` is true - not when the key is merely present
+// (`external: false` is the default written out). In the function of package
+// loader that assigns the resource names, the branch between the two name
+// stores depends on the value looked up under "external", not only on its
+// presence.
+// ---------------------------------------------------------------------------
+
+func (c *Ctx) EXTVAL(rule string) []report.Obligation {
+	var out []report.Obligation
+	n := 0
+	for _, fn := range c.P.Funcs {
+		if !strings.HasPrefix(c.P.FuncID(fn), "loader.") {
+			continue
+		}
+		// stores under the constant key "name"
+		var stores []*ssa.MapUpdate
+		for _, b := range fn.Blocks {
+			for _, in := range b.Instrs {
+				if mu, ok := in.(*ssa.MapUpdate); ok {
+					if k, _ := prog.ConstString(mu.Key); k == "name" {
+						stores = append(stores, mu)
+					}
+				}
+			}
+		}
+		var ext *ssa.Lookup
+		for _, b := range fn.Blocks {
+			for _, in := range b.Instrs {
+				if lk, ok := in.(*ssa.Lookup); ok {
+					if k, _ := prog.ConstString(lk.Index); k == "external" {
+						ext = lk
+					}
+				}
+			}
+		}
+		if len(stores) < 2 || ext == nil {
+			continue
+		}
+		n++
+		// a branch condition computed from the looked-up value (not its ok flag) controls at least one of the stores
+		valueUsed := false
+		for _, mu := range stores {
+			for _, d := range prog.Info(fn).TransitiveControlDeps(mu.Block()) {
+				iff, ok := d.Branch.Instrs[len(d.Branch.Instrs)-1].(*ssa.If)
+				if !ok {
+					continue
+				}
+				if derivesFromLookupValue(iff.Cond, ext, 5) {
+					valueUsed = true
+				}
+			}
+		}
+		out = append(out, verdict(valueUsed, rule, c.P.FuncID(fn)+" :: external decided by its value", c.P.InstrPos(ext),
+			"the choice between the bare key and <project>_<key> depends on the value of `external`", "the choice between the bare key and <project>_<key> depends only on the presence of the `external` key: `external: false` keeps the bare key"))
+	}
+	if n == 0 {
+		out = append(out, bad(rule, "loader :: resource naming", "", "no function of package loader chooses between two `name` stores after looking up `external`: the rule sees nothing"))
+	}
+	return out
+}
+
+func derivesFromLookupValue(v ssa.Value, lk *ssa.Lookup, depth int) bool {
+	if depth == 0 {
+		return false
+	}
+	switch x := v.(type) {
+	case *ssa.Extract:
+		if x.Tuple == ssa.Value(lk) {
+			return x.Index == 0
+		}
+		return derivesFromLookupValue(x.Tuple, lk, depth-1)
+	case *ssa.Lookup:
+		return x == lk && !x.CommaOk
+	case *ssa.Call:
+		for _, a := range x.Call.Args {
+			if derivesFromLookupValue(a, lk, depth-1) {
+				return true
+			}
+		}
+	case *ssa.BinOp:
+		return derivesFromLookupValue(x.X, lk, depth-1) || derivesFromLookupValue(x.Y, lk, depth-1)
+	case *ssa.UnOp:
+		return derivesFromLookupValue(x.X, lk, depth-1)
+	case *ssa.TypeAssert:
+		return derivesFromLookupValue(x.X, lk, depth-1)
+	case *ssa.Phi:
+		for _, e := range x.Edges {
+			if derivesFromLookupValue(e, lk, depth-1) {
+				return true
+			}
+		}
+	case *ssa.MakeInterface:
+		return derivesFromLookupValue(x.X, lk, depth-1)
+	}
+	return false
+}
+
+// ---------------------------------------------------------------------------
+// INHERIT: a key inherits its value from the environment only when it has no
+// value at all: a bare `KEY` in a list, a null in a mapping. `KEY=` / `KEY: ""`
+// is explicitly empty and stays empty. In every function of package loader
+// that receives a lookup function and calls it, the call is decided only by
+// nil tests, separator-absence tests (strings.Contains / Cut / Index), type
+// tests and loop conditions - never by an emptiness test of the value.
+// ---------------------------------------------------------------------------
+
+func (c *Ctx) INHERIT(rule string) []report.Obligation {
+	var out []report.Obligation
+	n := 0
+	for _, fn := range c.P.Funcs {
+		if !strings.HasPrefix(c.P.FuncID(fn), "loader.") {
+			continue
+		}
+		for _, b := range fn.Blocks {
+			for _, in := range b.Instrs {
+				call, ok := in.(*ssa.Call)
+				if !ok || call.Call.IsInvoke() || call.Call.StaticCallee() != nil {
+					continue
+				}
+				if _, isParam := call.Call.Value.(*ssa.Parameter); !isParam || !isLookupSig(call.Call.Value.Type()) {
+					continue
+				}
+				n++
+				var offending []string
+				for _, f := range prog.DominatingFacts(b) {
+					switch x := f.Cond.(type) {
+					case *ssa.BinOp:
+						if prog.IsNilConst(x.X) || prog.IsNilConst(x.Y) {
+							continue
+						}
+						if isIntType(x.X.Type()) {
+							// index / length comparisons of a split are separator tests unless they test a length against zero
+							if lc, isCall := x.X.(*ssa.Call); isCall {
+								if bi, isB := lc.Call.Value.(*ssa.Builtin); isB && bi.Name() == "len" && isStringType(lc.Call.Args[0].Type()) {
+									offending = append(offending, "the length of a string")
+								}
+							}
+							continue
+						}
+						if sv, isC := prog.ConstString(x.Y); isC && sv == "" {
+							offending = append(offending, "a comparison with the empty string")
+							continue
+						}
+						if sv, isC := prog.ConstString(x.X); isC && sv == "" {
+							offending = append(offending, "a comparison with the empty string")
+							continue
+						}
+					case *ssa.Extract:
+						switch t := x.Tuple.(type) {
+						case *ssa.TypeAssert, *ssa.Next, *ssa.Lookup:
+							continue
+						case *ssa.Call:
+							if sn := staticName(&t.Call); sn == "strings.Cut" || strings.HasPrefix(sn, "strings.") {
+								continue
+							}
+							if t.Call.StaticCallee() == nil {
+								continue // the ok of an earlier lookup
+							}
+							offending = append(offending, "the result of "+calleeName(t.Call.StaticCallee()))
+						}
+					case *ssa.Call:
+						sn := staticName(&x.Call)
+						if sn == "strings.Contains" || sn == "strings.HasPrefix" || sn == "strings.ContainsRune" {
+							continue
+						}
+						if cal := x.Call.StaticCallee(); cal != nil {
+							offending = append(offending, "the predicate "+calleeName(cal))
+						}
+					case *ssa.Parameter:
+						continue // a flag of the caller (keepEmpty)
+					}
+				}
+				sort.Strings(offending)
+				key := c.P.FuncID(fn) + " :: environment consulted only for a key without value"
+				out = append(out, verdict(len(offending) == 0, rule, key, c.P.InstrPos(call),
+					"the lookup is decided by nil, separator-absence and type tests only", "the lookup also depends on "+strings.Join(offending, ", ")+": an explicitly empty value (`KEY=`, `KEY: \"\"`) is treated like a missing one and inherits from the environment"))
+			}
+		}
+	}
+	if n == 0 {
+		out = append(out, bad(rule, "loader :: lookups of keys without value", "", "no function of package loader calls a lookup function it received: the rule sees nothing"))
+	}
+	return out
+}
+
+// ---------------------------------------------------------------------------
+// PATHPURE (C12): whether a path is rewritten depends on the path alone.
+// In the methods of the relative-path resolver, no branch is decided by the
+// base directory (the resolver's string field, read directly or through a
+// helper method): "already under the base" heuristics make the result depend
+// on where the project lives and break absolute paths that merely share a
+// prefix with it.
+// ---------------------------------------------------------------------------
+
+func (c *Ctx) PATHPURE(rule string) []report.Obligation {
+	var out []report.Obligation
+	// the resolver type: the struct of package paths that has the resolver table
+	var recvT *types.Named
+	baseField := -1
+	if pk := c.P.PkgByRel["paths"]; pk != nil {
+		for _, name := range pk.Types.Scope().Names() {
+			tn, ok := pk.Types.Scope().Lookup(name).(*types.TypeName)
+			if !ok {
+				continue
+			}
+			st, ok := tn.Type().Underlying().(*types.Struct)
+			if !ok {
+				continue
+			}
+			hasTable, strField := false, -1
+			for i := 0; i < st.NumFields(); i++ {
+				if _, isMap := st.Field(i).Type().Underlying().(*types.Map); isMap {
+					hasTable = true
+				}
+				if isStringType(st.Field(i).Type()) {
+					strField = i
+				}
+			}
+			if hasTable && strField >= 0 {
+				recvT, baseField = tn.Type().(*types.Named), strField
+			}
+		}
+	}
+	if recvT == nil {
+		return []report.Obligation{bad(rule, "paths :: resolver type", "", "no struct with a resolver table and a base directory in package paths: the rule sees nothing")}
+	}
+	isRecv := func(t types.Type) bool {
+		if p, ok := t.(*types.Pointer); ok {
+			t = p.Elem()
+		}
+		return types.Identical(t, recvT)
+	}
+	var methods []*ssa.Function
+	for _, fn := range c.P.Funcs {
+		if fn.Signature.Recv() != nil && isRecv(fn.Signature.Recv().Type()) && fn.Parent() == nil {
+			methods = append(methods, fn)
+		}
+	}
+	// methods that read the base directory and return a bool: predicates on the base
+	readsBase := func(fn *ssa.Function) bool {
+		for _, b := range fn.Blocks {
+			for _, in := range b.Instrs {
+				if fa, ok := in.(*ssa.FieldAddr); ok && fa.Field == baseField && isRecv(fa.X.Type()) {
+					return true
+				}
+			}
+		}
+		return false
+	}
+	var fromBase func(v ssa.Value, d int) bool
+	fromBase = func(v ssa.Value, d int) bool {
+		if d == 0 {
+			return false
+		}
+		switch x := v.(type) {
+		case *ssa.UnOp:
+			if fa, ok := x.X.(*ssa.FieldAddr); ok && fa.Field == baseField && isRecv(fa.X.Type()) {
+				return true
+			}
+			return fromBase(x.X, d-1)
+		case *ssa.BinOp:
+			return fromBase(x.X, d-1) || fromBase(x.Y, d-1)
+		case *ssa.Call:
+			if cal := x.Call.StaticCallee(); cal != nil && cal.Signature.Recv() != nil && isRecv(cal.Signature.Recv().Type()) && cal.Signature.Results().Len() == 1 && isBoolType(cal.Signature.Results().At(0).Type()) && readsBase(cal) {
+				return true
+			}
+			for _, a := range x.Call.Args {
+				if fromBase(a, d-1) {
+					return true
+				}
+			}
+		case *ssa.Extract:
+			return fromBase(x.Tuple, d-1)
+		case *ssa.Phi:
+			for _, e := range x.Edges {
+				if fromBase(e, d-1) {
+					return true
+				}
+			}
+		}
+		return false
+	}
+	n := 0
+	for _, fn := range methods {
+		for _, b := range fn.Blocks {
+			iff, ok := b.Instrs[len(b.Instrs)-1].(*ssa.If)
+			if !ok {
+				continue
+			}
+			n++
+			if fromBase(iff.Cond, 5) {
+				out = append(out, bad(rule, c.P.FuncID(fn)+" :: decision independent of the base directory", c.P.InstrPos(iff),
+					"a branch of the resolver is decided by the base directory: whether a path is rewritten depends on where the project lives (an absolute or already-joined path that shares a prefix with it is treated differently)"))
+			}
+		}
+	}
+	out = append(out, report.Obligation{Rule: rule, Key: "resolver methods :: no branch reads the base directory", Status: report.Discharged,
+		Why: fmt.Sprintf("%d branches in %d methods of %s inspected", n, len(methods), recvT.Obj().Name())})
+	return out
+}
+
+// ---------------------------------------------------------------------------
+// NUMSIGN (C09): a model type whose underlying type is a signed integer is not
+// parsed with an unsigned parser: the default encoding renders negative
+// sentinels (count: -1 for "all") that strconv.ParseUint rejects on reload.
+// ---------------------------------------------------------------------------
+
+func (c *Ctx) NUMSIGN(rule string) []report.Obligation {
+	var out []report.Obligation
+	n := 0
+	for _, fn := range c.P.Funcs {
+		if !strings.HasPrefix(c.P.FuncID(fn), "types.") || fn.Signature.Recv() == nil || fn.Parent() != nil {
+			continue
+		}
+		switch fn.Name() {
+		case "DecodeMapstructure", "UnmarshalYAML", "UnmarshalJSON", "UnmarshalText":
+		default:
+			continue
+		}
+		rt := fn.Signature.Recv().Type()
+		if p, ok := rt.(*types.Pointer); ok {
+			rt = p.Elem()
+		}
+		bt, ok := rt.Underlying().(*types.Basic)
+		if !ok || bt.Info()&types.IsInteger == 0 || bt.Info()&types.IsUnsigned != 0 {
+			continue
+		}
+		n++
+		var bad1 ssa.Instruction
+		for _, cs := range callSites(fn, func(com *ssa.CallCommon) bool { return staticName(com) == "strconv.ParseUint" }) {
+			bad1 = cs
+		}
+		key := c.P.FuncID(fn) + " :: signed value parsed with a signed parser"
+		if bad1 == nil {
+			out = append(out, okOb(rule, key, c.P.Pos(fn.Pos()), "no strconv.ParseUint in the decoder of a signed integer type"))
+		} else {
+			out = append(out, bad(rule, key, c.P.InstrPos(bad1), "the decoder of a signed integer type parses with strconv.ParseUint: a negative value the encoder renders (a sentinel such as -1) is rejected on reload"))
+		}
+	}
+	if n == 0 {
+		out = append(out, bad(rule, "types :: decoders of signed integer types", "", "no decoder of a signed integer model type found: the rule sees nothing"))
 	}
 	return out
 }
